@@ -95,6 +95,10 @@ def check_loaded(res, dump, cfg):
             ref("function", t["destructor"], F, "type.destructor", listed=listed_funcs)
         for ei in t["elements"]:
             ref("element", ei, E, "type.elements")
+        enames = [E[ei]["scoped_name"] for ei in t["elements"] if ei in E]
+        if len(set(enames)) != len(enames):
+            res.violation("duplicate-element-in-type:" + ("nested" if t["is_nested"] else "toplevel"), type=t["scoped_name"],
+                          names=sorted(n for n in set(enames) if enames.count(n) > 1)[:3])
         for si in t["make_seqs"]:
             ref("make_seq", si, S, "type.make_seqs")
         for ni in t["nested_types"]:
